@@ -83,6 +83,45 @@ for step in (1.0, 0.2, 0.1):
             bad.append("%s, time step %g fs: reorganisation energy recovered from the data %.5g differs from the declared 30"
                        % (ftype, step, got))
 
+# ---- spectral densities: sums inside and outside an energy-units context, in-place addition of a function to itself -----------------
+SDTYPES = ("OverdampedBrownian", "UnderdampedBrownian")
+ta = TimeAxis(0.0, 400, 2.0)
+
+
+def sdcomp(ftype):
+    if ftype == "UnderdampedBrownian":
+        return dict(ftype=ftype, reorg=25.0, freq=150.0, gamma=1.0 / 500.0, T=300.0)
+    return dict(ftype=ftype, reorg=30.0, cortime=80.0, T=300.0)
+
+
+for t1, t2 in itertools.product(SDTYPES, repeat=2):
+    try:
+        with qr.energy_units("1/cm"):
+            a = qr.SpectralDensity(ta, sdcomp(t1))
+            b = qr.SpectralDensity(ta, dict(sdcomp(t2), reorg=55.0))
+        da, db, la, lb = a.data.copy(), b.data.copy(), a.lamb, b.lamb
+        for units in ("int", "1/cm", "eV"):
+            with qr.energy_units(units):
+                s = a + b
+            label = "spectral densities %s + %s added inside energy_units(%r)" % (t1, t2, units)
+            if not close(s.data, da + db):
+                bad.append("%s: data differ from the sum of the components (max dev %.3g of %.3g)"
+                           % (label, numpy.max(numpy.abs(s.data - da - db)), numpy.max(numpy.abs(da + db))))
+            if abs(s.lamb - (la + lb)) > 1e-9 * abs(la + lb):
+                bad.append("%s: reorganisation energy %.6g is not the sum %.6g" % (label, s.lamb, la + lb))
+            if not close(a.data, da) or not close(b.data, db):
+                bad.append("%s: an operand was changed" % label)
+        for units in ("int", "1/cm"):
+            with qr.energy_units("1/cm"):
+                e = qr.SpectralDensity(ta, sdcomp(t1))
+            d0, l0 = e.data.copy(), e.lamb
+            with qr.energy_units(units):
+                e += e
+            if not close(e.data, 2 * d0) or abs(e.lamb - 2 * l0) > 1e-9 * abs(l0):
+                bad.append("spectral density %s added to itself in place inside energy_units(%r): not twice the function" % (t1, units))
+    except Exception as ex_:      # noqa
+        bad.append("spectral densities %s + %s: raised %s: %s" % (t1, t2, type(ex_).__name__, str(ex_)[:100]))
+
 for b in bad[:12]:
     print("VIOLATED:", b)
 print("C09 oracle: %d violations" % len(bad))
